@@ -345,10 +345,10 @@ func TestVF_C01(t *testing.T) {
 		m := expOf(ms[splitIdx], lm)
 		xs := map[string]*big.Int{
 			"x=0": bi(0), "x=1": bi(1),
-			"x=m+1":    new(big.Int).Add(m, bi(1)),
-			"x=2m":     new(big.Int).Lsh(m, 1),
-			"x=2^Lm-1": new(big.Int).Sub(pow2(lm), bi(1)),
-			"x=random": new(big.Int).SetBytes(rapid.SliceOfN(rapid.Byte(), 1, 32).Draw(rt, "xr")),
+			"x=m+1":       new(big.Int).Add(m, bi(1)),
+			"x=2m":        new(big.Int).Lsh(m, 1),
+			"x=2^Lm-1":    new(big.Int).Sub(pow2(lm), bi(1)),
+			"x=random":    new(big.Int).SetBytes(rapid.SliceOfN(rapid.Byte(), 1, 32).Draw(rt, "xr")),
 			"x=oversized": new(big.Int).SetBytes(append([]byte{1}, rapid.SliceOfN(rapid.Byte(), 33, 40).Draw(rt, "xo")...)),
 		}
 		if m.Sign() > 0 {
